@@ -109,6 +109,10 @@ def hkl_comparisons(rng, tools, laue, sgs):
     out.append(('genhkl_all', sorted_rows(tools.genhkl_all(cell, lo, hi, **kw)), sorted_rows(laue.genhkl_all(cell, lo, hi, **kw)), {}))
     out.append(('genhkl_unique', sorted_rows(tools.genhkl_unique(cell, lo, hi, output_stl=True, **kw)),
                 sorted_rows(laue.genhkl_unique(cell, lo, hi, output_stl=True, **kw)), {}))
+    import numpy as _np
+    flag = rng.choice([False, True, 0, 1, 0.0, _np.False_, _np.True_, _np.int64(0), None])     # the same flag, however it is spelled, must mean the same thing in both modules
+    out.append(('genhkl_all', sorted_rows(tools.genhkl_all(cell, lo, hi, output_stl=flag, **kw)), sorted_rows(laue.genhkl_all(cell, lo, hi, output_stl=flag, **kw)), {}))
+    out.append(('genhkl_unique', sorted_rows(tools.genhkl_unique(cell, lo, hi, output_stl=flag, **kw)), sorted_rows(laue.genhkl_unique(cell, lo, hi, output_stl=flag, **kw)), {}))
     out.append(('genhkl_base', sorted_rows(tools.genhkl_base(cell, s.syscond, lo, hi, s.crystal_system, s.Laue, s.cell_choice, True)),
                 sorted_rows(laue.genhkl_base(cell, s.syscond, lo, hi, s.crystal_system, s.Laue, s.cell_choice, True)), {}))
     out.append(('genhkl', sorted_rows(tools.genhkl(cell, s.syscond, lo, hi, output_stl=True)),
@@ -117,7 +121,7 @@ def hkl_comparisons(rng, tools, laue, sgs):
         h = [rng.randint(-9, 9) for _ in range(3)]
         out.append(('sysabs', tools.sysabs(h, s.syscond, s.crystal_system), laue.sysabs(h, s.syscond, s.crystal_system), {}))
         out.append(('sysabs_unique', tools.sysabs_unique(h, s.syscond), laue.sysabs_unique(h, s.syscond), {}))
-    return out, dict(sgno=no, cell=cell, sintlmax=hi, call=form)
+    return out, dict(sgno=no, cell=cell, sintlmax=hi, call=form, output_stl_flag=repr(flag))
 
 
 def conforming_cell(rng, csys, choice):
